@@ -217,7 +217,56 @@ class Lower:
                 return self.bind(G(target.qualname), target, first + args, kw, skip=0)
             return call(attr(call(G('super')), n.func.attr), args, kw)
         fn = self.e(n.func)
+        inl = self._inline(n, fn, args, kw)
+        if inl is not None:
+            return inl
         return call(fn, args, kw)
+
+    def _inline(self, n, fn, args, kw):
+        """Inline a call of an *unspecified* repository helper (a function no reference covers): an extracted helper is
+        transparent, and whatever it does is judged at its call site."""
+        prog = self.scope.program
+        if self.scope.inline_depth >= 3 or any(a[0] in ('star', 'dstar') for a in args):
+            return None
+        target, first = None, []
+        if fn[0] == 'glob' and fn[1] in prog.functions:
+            target = prog.functions[fn[1]]
+            if target.cls is not None and (target.is_classmethod or target.is_property):
+                return None        # (a plain function reached through its class takes its arguments as given)
+        elif fn[0] == 'attr' and fn[1] == V('self') and self.scope.cls is not None and isinstance(n.func, ast.Attribute):
+            target = prog.lookup_method(self.scope.cls, fn[2])
+            if target is None or target.is_property or target.is_static or target.is_classmethod:
+                return None
+            if any(fn[2] in c.methods for c in prog.subclasses(self.scope.cls, strict=True)):
+                return None
+            first = [V('self')]
+        if target is None or target.qualname in CONTRACTED or target is self.scope.func:
+            return None
+        if target.node.args.vararg or target.node.args.kwarg or target.decorator_list_nontrivial():
+            return None
+        if target.name.startswith('__') and target.name.endswith('__'):
+            return None
+        a = target.node.args
+        names = [x.arg for x in a.posonlyargs + a.args]
+        actual = first + list(args)
+        if len(actual) > len(names):
+            return None
+        bind = dict(zip(names, actual))
+        for k, v in kw:
+            if k not in names or k in bind:
+                return None
+            bind[k] = v
+        dl = Lower(Scope(prog, target.module, target.cls, target), set())
+        for prm, d in zip(names[len(names) - len(a.defaults):], a.defaults):
+            bind.setdefault(prm, dl.e(d))
+        if set(bind) != set(names):
+            return None
+        sub = FuncLower(prog, target)
+        sub.scope.inline_depth = self.scope.inline_depth + 1
+        lw = Lower(sub.scope, sub.locals, dict(bind), {})
+        body = [s for s in target.node.body if not _is_doc(s)]
+        t = sub.block(body, lw, ())
+        return _expr_of_block(t)
 
     def bind(self, fn, fi, args, kw, skip):
         return bind_call(self.scope.program, fn, fi, args, kw, skip)
@@ -418,6 +467,20 @@ def _has_default(fi, name):
     return name in withdef
 
 
+CONTRACTED = set()      # qualnames covered by a reference (set by the contract engine); those are never inlined
+
+
+def _expr_of_block(t):
+    """value of an effect-free function body term as an expression term (or None)"""
+    if t[0] == 'ret' and not t[2]:
+        return t[1]
+    if t[0] == 'if':
+        a, b = _expr_of_block(t[2]), _expr_of_block(t[3])
+        if a is not None and b is not None:
+            return ('if', t[1], a, b)
+    return None
+
+
 def _is_doc(s):
     return isinstance(s, ast.Expr) and isinstance(s.value, ast.Constant) and isinstance(s.value.value, str)
 
@@ -555,8 +618,20 @@ class FuncLower:
                 body = [s for s in st.body if not _is_doc(s)]
                 if len(body) == 1 and isinstance(body[0], ast.Return) and body[0].value is not None:
                     lw.env[st.name] = lw._lambda(st.args, lambda sub: sub.e(body[0].value))
-                else:
+                elif st.decorator_list or any(isinstance(n, (ast.Yield, ast.YieldFrom, ast.Nonlocal, ast.Global)) for n in ast.walk(st)):
                     lw.env[st.name] = ('opaque', 'nested def ' + st.name)
+                else:
+                    # general nested function: a lambda whose body is the lowered block (with its effects)
+                    def mk(sub, body=body):
+                        saved = (self._in_loop_body, self._loop_names)
+                        self._in_loop_body, self._loop_names = False, ()
+                        for n in ast.walk(st):
+                            if isinstance(n, ast.Name) and isinstance(n.ctx, ast.Store):
+                                sub.locals.add(n.id)
+                        r = self.block(body, sub, ())
+                        self._in_loop_body, self._loop_names = saved
+                        return r
+                    lw.env[st.name] = lw._lambda(st.args, mk)
                 continue
             if isinstance(st, ast.Assert):
                 c = lw.e(st.test)
@@ -1192,6 +1267,17 @@ def canon(t):
                     return _mk_poly({(('call', G('sum'), (('map', ('lam', m[1][1], inner), m[2]),), ()),): c})
         return t
     if k in ('and', 'or'):
+        return t
+    if k == 'if':
+        c = t[1]
+        if c[0] == 'not':
+            return ('if', c[1], t[3], t[2])
+        if c[0] == 'cmp' and c[1] in ('NotEq', 'IsNot', 'NotIn'):
+            return ('if', ('cmp', {'NotEq': 'Eq', 'IsNot': 'Is', 'NotIn': 'In'}[c[1]], c[2], c[3]), t[3], t[2])
+        if c[0] == 'ge0':
+            n2 = _negate_bool(c)
+            if _key(n2) < _key(c):
+                return ('if', n2, t[3], t[2])
         return t
     if k == 'call' and t[1] in (G('min'), G('max')) and len(t[2]) == 2 and not t[3]:
         o = _ordered(t[2][0], t[2][1])
